@@ -79,12 +79,12 @@ type sock struct {
 }
 
 type NetFaults struct {
-	DropDen  int           // drop 1 in DropDen datagrams (0 = never)
-	DupDen   int           // duplicate 1 in DupDen
-	LatMin   time.Duration // base one-way latency
-	LatJit   time.Duration // + uniform jitter (reordering when > spacing)
-	SlowDen  int           // 1 in SlowDen datagrams gets SlowBy extra
-	SlowBy   time.Duration
+	DropDen int           // drop 1 in DropDen datagrams (0 = never)
+	DupDen  int           // duplicate 1 in DupDen
+	LatMin  time.Duration // base one-way latency
+	LatJit  time.Duration // + uniform jitter (reordering when > spacing)
+	SlowDen int           // 1 in SlowDen datagrams gets SlowBy extra
+	SlowBy  time.Duration
 }
 
 type Verdict int
@@ -95,10 +95,10 @@ const (
 )
 
 type Net struct {
-	w      *World
-	socks  []*sock
-	peers  map[string]func(src string, data []byte)
-	down   map[string]bool
+	w         *World
+	socks     []*sock
+	peers     map[string]func(src string, data []byte)
+	down      map[string]bool
 	ToAgent   NetFaults
 	FromAgent NetFaults
 	// Filter, when set, is consulted first for every datagram (scripted loss).
@@ -114,7 +114,7 @@ type Net struct {
 	UnixSink  map[string][]UnixWrite
 	// UnixFailNext: the next n writes to the path fail with ECONNREFUSED
 	UnixFailNext map[string]int
-	UnixOpen  map[string]bool
+	UnixOpen     map[string]bool
 }
 
 type UnixWrite struct {
